@@ -87,3 +87,20 @@ Example C02_examples :
                    (VBool true, false)) ]
   = Some (lit "b={'a': ['x', None], 'z': 1}").
 Proof. vm_compute. reflexivity. Qed.
+
+(* K2a (open known finding): the invariance under the order of mapping keys stops at parameter objects - an
+   instantiated object without repr is rendered with its keyword arguments as written, and an
+   AutoParameterObject renders a mapping-valued argument with repr(), i.e. in insertion order.  The theorem
+   C02_mapping_key_order_any_depth above is about values whose mappings are outside object arguments (norm does not
+   descend into them); these two witnesses are replayed on the implementation on every run. *)
+Theorem C02_instantiated_kwargs_order_refuted :
+  repr_inst (VInst (lit "Plain") [VInt 1] [(lit "k", VInt 1); (lit "a", VInt 2)]) <>
+  repr_inst (VInst (lit "Plain") [VInt 1] [(lit "a", VInt 2); (lit "k", VInt 1)]).
+Proof. exact inst_kwargs_order_matters. Qed.
+Print Assumptions C02_instantiated_kwargs_order_refuted.
+
+Theorem C02_auto_mapping_argument_order_refuted :
+  repr_inst (VAuto (lit "AutoA") [(lit "a", VDict [(lit "z", VInt 1); (lit "b", VStr (lit "q"))])]) <>
+  repr_inst (VAuto (lit "AutoA") [(lit "a", VDict [(lit "b", VStr (lit "q")); (lit "z", VInt 1)])]).
+Proof. exact auto_mapping_argument_order_matters. Qed.
+Print Assumptions C02_auto_mapping_argument_order_refuted.
